@@ -145,7 +145,7 @@ class MetaMeanUsed(Harness):
                 Check("radius_is_max_distance", meta.radius.data, np.array([0.25]))]
 
 
-CENTRES = np.array([[0.1, 0.1], [0.5, 0.1], [0.9, 0.1]])
+CENTRES = np.array([[0.1, 0.1], [0.5, 0.1], [0.9, 0.1], [1.3, 0.1], [1.7, 0.1]])
 
 
 class LoadPatches(Harness):
@@ -401,7 +401,7 @@ class RefuseZeroRadius(Harness):
 def harnesses(tier):
     hs = [MetaCompute(3), LoadPatches(3), Refuse(2), RefuseZeroRadius(), Accessors(3)]
     if tier == "thorough":
-        hs += [MetaCompute(5), MetaMeanUsed(), Refuse(3)]
+        hs += [MetaCompute(5), MetaMeanUsed(), Refuse(3), LoadPatches(4), LoadPatches(5), Accessors(4)]
     hs += [MetaCompute(1, wrong="mean"), LoadPatches(2, wrong="shift"), Refuse(2, wrong="always")]
     return hs
 
